@@ -200,9 +200,10 @@ def treeTextOK (w : Txt) : Bool :=
    | .ok (s, []) => s == w.dropLast
    | _ => false)
 
-/-- the taxa check of the Nexus `Parse` for one tree: its tips are labels, and as many -/
+/-- the taxa check of the Nexus `Parse` for one tree: its tips are labels (since fix 6a194b0 not
+    necessarily all of them) -/
 def okTaxa (labs : List String) (t : T) : Bool :=
-  t.tipNames.all labs.contains && t.tipNames.length == labs.length
+  t.tipNames.all labs.contains
 
 /-- trees numbered from `i`, as the channel delivers them -/
 def enumFrom : Nat → List T → List (Nat × T)
@@ -272,6 +273,15 @@ def namesOK (t : T) : Bool := innerNamesDistinct t && nonTipNamesNotNumeral t
     the wrong observation is the reader's single error record for the whole document -/
 def isF60 (translate : Bool) (ts : List T) (recs : List Rec) : Bool :=
   translate && ts.all tipsOK && sameTaxa ts && ts.all nonTipNamesNotNumeral &&
+  ts.any (fun t => !innerNamesDistinct t) &&
+  (match recs with
+   | [r] => r.id == 0 && !r.out.isOk
+   | _ => false)
+
+/-- `isF60` for tree lists with differing tip sets (oracle-checked through Nexus since fix 6a194b0): the
+    finding does not depend on the tip sets being equal — same region otherwise, same observation -/
+def isF60Lists (translate : Bool) (ts : List T) (recs : List Rec) : Bool :=
+  translate && ts.all tipsOK && ts.all nonTipNamesNotNumeral &&
   ts.any (fun t => !innerNamesDistinct t) &&
   (match recs with
    | [r] => r.id == 0 && !r.out.isOk
